@@ -45,6 +45,10 @@ def h_levellimit(P, offered, existing, L, distinct=False):
         allc[p] = mk_inds(P, prob, n, 1, f"c{i}_")
     flags = [P.bool(f"act{j}") for j in range(existing)]
     children = [mk_deme(f"k{j}", 1, active=flags[j]) for j in range(existing)]
+    # the existing demes belong to real parents: the first to a sprouting parent, the others to a parent that offers nothing
+    silent = mk_deme("px", 0, active=False)
+    for j, ch in enumerate(children):
+        (parents[0] if j == 0 else silent)._children.append(ch)
     from ._tree import count_true
 
     n_active = count_true(flags)
@@ -54,7 +58,7 @@ def h_levellimit(P, offered, existing, L, distinct=False):
         for a in range(len(flat)):
             for b in range(a + 1, len(flat)):
                 P.assume(flat[a].fitness != flat[b].fitness)
-    tree = mk_tree([parents, children])
+    tree = mk_tree([parents + [silent], children])
     out = LevelLimit(L)(_cands(allc), tree)
     kept = [k for p in parents for k in out[p].individuals]
     for p in parents:
